@@ -9,6 +9,7 @@ import Gpa.Model.RbacWire
 import Gpa.Model.PipelineWire
 import Gpa.Model.Attribution
 import Gpa.Model.Truncate
+import Gpa.Model.Telemetry
 
 open Gpa
 
@@ -93,6 +94,23 @@ def stepLine (st : DState) (line : String) : DState × String :=
   | ["trunc", "utf16", b] =>
       match Hex.decode b with
       | some bs => (st, " ".intercalate ((Truncate.utf16Units bs).map toString))
+      | none => (st, "bad-op")
+  | "telem" :: toks =>
+      match Tok.run (do
+          let cid ← Tok.str; let tn ← Tok.str; let rn ← Tok.str; let rin ← Tok.str; let sub ← Tok.str
+          let rg ← Tok.str; let vm ← Tok.str; let io ← Tok.nat; let os ← Tok.str; let kw ← Tok.str
+          let ram ← Tok.nat; let cpu ← Tok.nat
+          let evs ← Tok.list (do
+            let level ← Tok.str; let message ← Tok.str; let version ← Tok.str; let taskName ← Tok.str
+            let pid ← Tok.str; let tid ← Tok.str; let operationId ← Tok.str; let timeStamp ← Tok.str
+            pure ({ level, message, version, taskName, pid, tid, operationId, timeStamp } : Telemetry.Event))
+          pure (({ containerId := cid, tenantName := tn, roleName := rn, roleInstanceName := rin, subscriptionId := sub,
+                   resourceGroupName := rg, vmId := vm, imageOrigin := io, osVersion := os, keywordName := kw,
+                   ram := ram, processors := cpu } : Telemetry.Ctx), evs)) toks with
+      | some (c, evs) =>
+          let r := Telemetry.sendFile c evs
+          let bs := r.batches.map fun b => Hex.encode (Text.utf8 (Telemetry.toXml c b))
+          (st, s!"{r.batches.length} {" ".intercalate bs} D {r.dropped.length}")
       | none => (st, "bad-op")
   | "authz" :: toks =>
       match Tok.run (do let ip ← Tok.str; let port ← Tok.nat; let e ← Pipeline.pBool
